@@ -436,7 +436,12 @@ func (lli *llIterator) Current() (key, val []byte, err error) {
 		return nil, nil, moss.ErrIteratorDone
 	}
 
-	return key, val, nil
+	// a KVIterator's key/value are only valid until its next Next/Seek,
+	// whereas moss keeps the key returned here across lowerLevelIter.Next()
+	// (to skip duplicates): hand out copies, otherwise a lower-level store
+	// that recycles its buffers (goleveldb) makes the merging iterator
+	// skip keys
+	return append([]byte(nil), key...), append([]byte(nil), val...), nil
 }
 
 func (lli *llIterator) CurrentEx() (
